@@ -46,7 +46,10 @@ PlainOK(e) == /\ ~e.has_start /\ Len(e.steps) = 0
 SolveOK(e) == /\ e.thr_ok                                  \* threshold = abstol + reltol * ||b||, as logged
               /\ IF e.ir_enabled THEN RefinedOK(e) ELSE PlainOK(e)
 
-EventOK(e) == IF e.ev = "KKTSolve" THEN SolveOK(e) ELSE FALSE
+\* the factors are those of K + eps * diag(recorded signs): without refinement, b - K x0 = eps * S x0 row by row
+RegOK(e) == \A i \in 1..Len(e.rows) : FLe(e.rows[i][2], e.rows[i][1]) /\ FLe(e.rows[i][1], e.rows[i][3])
+
+EventOK(e) == IF e.ev = "KKTSolve" THEN SolveOK(e) ELSE IF e.ev = "KKTReg" THEN RegOK(e) ELSE FALSE
 
 VARIABLES l, bad
 TNext == /\ l <= Len(Rec) /\ l' = l + 1
